@@ -21,6 +21,8 @@ import json
 import os
 import shutil
 import struct
+import threading
+import time
 import nv
 
 PROP = "C14"
@@ -175,6 +177,36 @@ def describe_rejection(ev):
     return why or ["Judge/ReadBackAgrees"]
 
 
+_START = threading.Lock()
+
+
+def _validate(path, cfg=None):
+    """nv.validate_trace with the starts of concurrent runs kept >= 20 ms apart: nv.tlc names its metadir by pid and
+    millisecond, so two runs started by threads of this process in the same millisecond would share (and delete)
+    each other's directory"""
+    out = {}
+
+    def work():
+        try:
+            out["r"] = nv.validate_trace("Trace_NumFormat", path, cfg=cfg, timeout=1500)
+        except Exception as ex:      # re-raised in the calling thread
+            out["e"] = ex
+    with _START:
+        t = threading.Thread(target=work)
+        t.start()
+        time.sleep(0.02)
+    t.join()
+    if "e" in out:
+        raise out["e"]
+    return out["r"]
+
+
+def _validate_parallel(paths, jobs=8):
+    from concurrent.futures import ThreadPoolExecutor
+    with ThreadPoolExecutor(max_workers=jobs) as ex:
+        return list(ex.map(_validate, paths))
+
+
 def _count(rep, what, lines):
     """judged lines; G cases that Python compared as well (exact decimals, sampled) are not counted twice"""
     n = sum(1 for x in lines if '"exact":true' not in x)
@@ -189,7 +221,7 @@ def judge_traces(rep, paths, what):
     rounds = 0
     while todo and rounds < 6:
         rounds += 1
-        results = nv.validate_traces_parallel("Trace_NumFormat", todo, timeout=1500)
+        results = _validate_parallel(todo)
         nxt = []
         for p, r in zip(todo, results):
             lines = open(p).read().splitlines()
@@ -202,7 +234,7 @@ def judge_traces(rep, paths, what):
             bad = json.loads(lines[m]) if m < len(lines) else None
             one = p + ".one"
             open(one, "w").write(lines[m] + "\n")
-            r2 = nv.validate_trace("Trace_NumFormat", one, cfg="Trace_NumFormat_prop.cfg")
+            r2 = _validate(one, cfg="Trace_NumFormat_prop.cfg")
             if r2["accepted"]:
                 rep.add("model_drift_notation", 1)
                 print("MODEL-DRIFT: property=C14 notation class of %s differs from the rule NumFormat.tla mirrors "
@@ -256,7 +288,7 @@ def selftests(rep, cases, meta, results, jpath, sc):
             break
     bad = os.path.join(sc, "trace_corrupt.ndjson")
     open(bad, "w").write("\n".join(lines) + "\n")
-    r = nv.validate_trace("Trace_NumFormat", bad)
+    r = _validate(bad)
     rep.notes["selftest_J_corrupted_event_rejected_at_line"] = r["matched"]
     if r["accepted"] or r["matched"] != k:
         raise nv.ToolError("binding self-test failed: corrupted trace accepted or rejected elsewhere (%s vs %s)" % (r["matched"], k))
@@ -273,7 +305,7 @@ def run(tier, seed):
         plan = [("patterns", dict(maxlen=1, elo=-12, ehi=22, mode="patterns"), 25)]
         for lo, hi in ((-12, -6), (-5, 1), (2, 8), (9, 15), (16, 22)):
             plan.append(("short_len4_e%d_%d" % (lo, hi), dict(maxlen=4, elo=lo, ehi=hi, mode="short"), 150))
-        for lo, hi in ((-8, -5), (-1, 1), (4, 7), (14, 16)):
+        for lo, hi in ((-7, -5), (-1, 1), (4, 6), (15, 16)):
             plan.append(("short_len5_hash_e%d_%d" % (lo, hi), dict(maxlen=5, elo=lo, ehi=hi, mode="short", optpick="hash"), 150))
         jn, jev = 16, 4000
     plan.append(("extreme", dict(maxlen=1, elo=-8, ehi=8, mode="extreme"), 0))   # all compared by Python
@@ -323,18 +355,46 @@ def run(tier, seed):
     return rep.finish()
 
 
+class _Collect:
+    """minimal stand-in for nv.Report when re-judging a replay file"""
+    def __init__(self):
+        self.violations = []
+
+    def add(self, *a):
+        pass
+
+    def violation(self, v, matcher=None):
+        self.violations.append(v)
+
+
 def replay(path, seed):
-    """re-run the recorded violating inputs on the current tree"""
+    """re-run the recorded violating inputs on the current tree and let Trace_NumFormat judge them again"""
     data = json.load(open(path))
     nv.build_harness([BIN])
-    still = 0
-    for v in data["violations"][:20]:
-        if "lit" not in v or v.get("lit") is None:
-            print(json.dumps(v)[:1500])
+    sc = nv.scratch("c14_replay")
+    events, still = [], 0
+    for v in data["violations"][:60]:
+        if v.get("lit") is None:
+            print("cannot re-run:", json.dumps(v)[:800])
             still += 1
             continue
         p = nv.harness(BIN, ["numfmt-probe", v["lit"], v["sep"], str(v["thr"]), str(v["sig"])], check=False)
-        print("was: %s" % json.dumps({k: v.get(k) for k in ("kind", "lit", "sep", "thr", "sig", "text", "expected")}))
-        print("now: %s" % p.stdout.splitlines()[0][:600] if p.stdout else p.stderr[-300:])
-        still += 1
+        lines = p.stdout.splitlines()
+        if p.returncode != 0 or len(lines) < 2:
+            print("probe failed:", v["lit"], p.stderr[-300:])
+            still += 1
+            continue
+        ev = json.loads(lines[1])
+        ev["lit"] = v["lit"]
+        events.append(ev)
+    if events:
+        tp = os.path.join(sc, "replay.ndjson")
+        nv.write_ndjson(tp, events)
+        col = _Collect()
+        judge_traces(col, chunk_trace(tp, sc, "rp", 6), "replay")
+        for v in col.violations:
+            print("still violated:", json.dumps({k: v.get(k) for k in ("lit", "sep", "thr", "sig", "text", "why")}))
+        still += len(col.violations)
+        print("%d of %d recorded inputs re-run, %d still violate C14" % (len(events), len(data["violations"]), len(col.violations)))
+    shutil.rmtree(sc, ignore_errors=True)
     return 1 if still else 0
